@@ -12,7 +12,7 @@ from ..values import Num, Const, Tup, Term, Obj, P, Val, Fn, arr_param, veq, wal
 from ..model import AnalysisError
 from ..rfa_model import Strategy, strategy, SpecEnv, RFA, ADAPT, strip_state
 from ..symeval import Evaluator
-from .common import S, run as runf, need_num, show, REPO_RESULT_KIND, no_sau, SAU
+from .common import S, run as runf, need_num, show, REPO_RESULT_KIND, no_sau, SAU, targ
 from . import c06
 
 WINDOW = [('LinearFixedRFA', False, False), ('ExpFixedRFA', False, True), ('LinearAdaptiveRFA', True, False),
@@ -307,8 +307,9 @@ def check_other_strategies(ctx):
             okv = False
             for t in apps:
                 f = t.args[0]
-                if isinstance(f, Term) and f.head == 'lib:scipy.interpolate.CubicSpline' and len(f.args) >= 2 and \
-                        veq(unwrap(f.args[0]), unwrap(st.X0)) and veq(unwrap(f.args[1]), unwrap(st.Y0)) and len(t.args) == 2:
+                if isinstance(f, Term) and f.head == 'lib:scipy.interpolate.CubicSpline' and targ(f, 'x', 0) is not None and \
+                        targ(f, 'y', 1) is not None and \
+                        veq(unwrap(targ(f, 'x', 0)), unwrap(st.X0)) and veq(unwrap(targ(f, 'y', 1)), unwrap(st.Y0)) and len(t.args) == 2:
                     g = t.args[1]
                     okv = isinstance(g, Num) and isinstance(rx, Num) and g.r == rx.r
         ok = ok and okv
